@@ -79,8 +79,8 @@ func (a *smAn) inlineTarget(call *ast.CallExpr, depth int) *ast.FuncDecl {
 	if a.em.Handlers[fn] != nil || a.em.Cores[fn] || a.em.Ctors[fn] {
 		return nil
 	}
-	if rt := recvType(fn); rt != nil {
-		switch namedOf(rt) {
+	if fn.Signature.Recv() != nil {
+		switch namedOf(recvType(fn)) {
 		case "parser", "Url":
 		default:
 			return nil // cursor, path, sets: modelled by their summaries
@@ -143,6 +143,10 @@ func (a *smAn) inlineTarget(call *ast.CallExpr, depth int) *ast.FuncDecl {
 			}
 			for i := 0; i < sig.Params().Len(); i++ {
 				if t := sig.Params().At(i).Type(); isNamed(t, "Url") || isNamed(t, "PercentEncodeSet") {
+					interesting = true
+				}
+				// a predicate over a code point: which delimiters end a state
+				if bt, ok := sig.Params().At(i).Type().Underlying().(*types.Basic); ok && bt.Kind() == types.Int32 && b.Kind() == types.Bool {
 					interesting = true
 				}
 			}
